@@ -16,8 +16,8 @@ import (
 // read/close/remove through try.Do or an error return) are made to fail. A failing stat is
 // not injected: SameFile ignores its error and the in-place protection is then skipped,
 // which no property speaks about (recorded as an observation in DESIGN.md).
-var injectKinds = []string{"opentrunc", "write", "rename", "open", "mkdirall", "remove", "read", "close"}
-var injectErrnos = []syscall.Errno{syscall.ENOSPC, syscall.EIO, syscall.EACCES, syscall.EMFILE, syscall.EINTR}
+var injectKinds = []string{"opentrunc", "write", "rename", "open", "mkdirall", "remove", "read", "close", "chmod", "chown", "chtimes"}
+var injectErrnos = []syscall.Errno{syscall.ENOSPC, syscall.EIO, syscall.EACCES, syscall.EMFILE, syscall.EINTR, syscall.EPERM}
 
 // judgeFinal compares the file system after a complete fault-free run with the model.
 func judgeFinal(c *Case, ex *Expectation, root string, before map[string]Node, co *ChildOut) *sim.Violation {
@@ -264,7 +264,7 @@ func C19Case(r *Runner, base string, tape *sim.Tape) *Outcome {
 				return out
 			}
 			if co.Res.Exit == -4 {
-				out.Infra = "the child's operation budget was exhausted (scenario too large for the chosen io buffer sizes)" + describe()
+				out.Skipped = "the child's operation budget was exhausted (scenario too large for the chosen io buffer sizes)" + describe()
 				return out
 			}
 		}
